@@ -71,18 +71,34 @@ def coutcome(out):
 
 
 # ---- running the implementation -------------------------------------------------------------------
-class World:
-    """One configuration: two individuals, recording callbacks with table answers."""
+SESSION_KEYS = ("kind", "delta", "alpha", "explicit_none", "alias", "via_toolbox", "two_funcs", "seq_as_tuple", "dother")
 
-    def __init__(self, mod, cfg, mkind):
-        self.cfg = cfg
+
+def compatible(a, b):
+    """can the two calls be made on the same decorated function? (same decorator construction)"""
+    return all(a.get(k) == b.get(k) for k in SESSION_KEYS) and (a["dist"] is None) == (b["dist"] is None)
+
+
+class Obs:
+    """what one call of the decorated function showed"""
+
+    def __init__(self, out, log, e0):
+        self.out, self.log, self.e0 = out, log, e0
+
+
+class Session:
+    """One decorator instance, one (or two) decorated evaluation functions, a sequence of calls on them with
+    different individuals.  The recording callbacks answer from the configuration of the current call."""
+
+    def __init__(self, mod, first, mkind):
+        self.mod, self.first, self.mkind = mod, first, mkind
+        self.cfg = first
         self.log = []
-        self.ind0 = mkind(cfg["w0"], 0)
-        self.ind1 = mkind(cfg.get("w1", cfg["w0"]), 1)
-        self.e0 = tuple(cfg["e0"]) if isinstance(cfg["e0"], (list, tuple)) else cfg["e0"]
-        e1 = cfg.get("e1", ())
-        self.e1 = tuple(e1) if isinstance(e1, (list, tuple)) else e1
-        self.mod = mod
+        self.ind0 = self.ind1 = None
+        self.e0 = self.e1 = None
+        self.cur_func = 0
+        self.funcs = None
+        self.build_result = vlib.guarded(self.build)
 
     def ident(self, x):
         return 0 if x is self.ind0 else 1 if x is self.ind1 else 99
@@ -91,14 +107,18 @@ class World:
         self.log.append(("feas", self.ident(ind)))
         return self.cfg["feas_value"]
 
-    def evaluate(self, ind, *args, **kwargs):
-        try:
-            a = tuple(int(x) for x in args)
-            k = dict((str(n), int(v)) for n, v in kwargs.items())
-        except Exception:  # noqa
-            a, k = (-999,), {}
-        self.log.append(("eval", self.ident(ind), a, k))
-        return self.e0 if ind is self.ind0 else self.e1
+    def make_evaluator(self, which):
+        def evaluate(ind, /, *args, **kwargs):
+            try:
+                a = tuple(int(x) for x in args)
+                k = dict((str(n), int(v)) for n, v in kwargs.items())
+            except Exception:  # noqa
+                a, k = (-999,), {}
+            # 98: the evaluation function wrapped by the *other* decoration was called
+            self.log.append(("eval", self.ident(ind) if which == self.cur_func else 98, a, k))
+            return self.e0 if ind is self.ind0 else self.e1
+        evaluate.__name__ = "evaluate%d" % which
+        return evaluate
 
     def feasible(self, ind):
         self.log.append(("closest", self.ident(ind)))
@@ -119,42 +139,51 @@ class World:
             return tuple(v) if self.cfg.get("seq_as_tuple", True) else list(v)
         return v
 
-    def run(self):
-        cfg, mod = self.cfg, self.mod
+    def build(self):
+        cfg, mod = self.first, self.mod
         alias = cfg.get("alias", False)
         if cfg["kind"] == "delta":
             cls = getattr(mod, "DeltaPenality", mod.DeltaPenalty) if alias else mod.DeltaPenalty
             dargs = [self.feasibility, self.conv(cfg["delta"])]
             if cfg["dist"] is not None or cfg.get("explicit_none"):
                 dargs.append(self.dist1 if cfg["dist"] is not None else None)
-            mk = lambda: cls(*dargs)  # noqa
         else:
             cls = getattr(mod, "ClosestValidPenality", mod.ClosestValidPenalty) if alias else mod.ClosestValidPenalty
             dargs = [self.feasibility, self.feasible, cfg["alpha"]]
             if cfg["dist"] is not None or cfg.get("explicit_none"):
                 dargs.append(self.dist2 if cfg["dist"] is not None else None)
-            mk = lambda: cls(*dargs)  # noqa
-
-        def build():
-            dec = mk()
+        dec = cls(*dargs)
+        funcs = []
+        for which in range(2 if cfg.get("two_funcs") else 1):
+            ev = self.make_evaluator(which)
             if cfg.get("via_toolbox"):
                 from deap import base
                 tb = base.Toolbox()
-                tb.register("evaluate", self.evaluate)
+                tb.register("evaluate", ev)
                 tb.decorate("evaluate", dec)
-                return tb.evaluate
-            return dec(self.evaluate)
-        b = vlib.guarded(build)
-        if b[0] != "ok":
-            return [(b, list(self.log))]
-        f = b[1]
-        runs = []
-        for _ in range(2 if cfg.get("call_twice") else 1):
-            # the decorated function is stateless: a second call must behave like the first
-            del self.log[:]
-            out = vlib.guarded(lambda: f(self.ind0, *cfg["args"], **cfg["kwargs"]))
-            runs.append((out, list(self.log)))
-        return runs
+                funcs.append(tb.evaluate)
+            else:
+                funcs.append(dec(ev))
+        self.funcs = funcs
+        return True
+
+    def call(self, cfg):
+        """one call of (one of) the decorated function(s) on a fresh pair of individuals"""
+        self.cfg = cfg
+        use_creator = cfg.get("creator", False)
+        self.ind0 = self.mkind(cfg["w0"], 0, use_creator)
+        self.ind1 = self.mkind(cfg.get("w1", cfg["w0"]), 1, use_creator)
+        self.e0 = tuple(cfg["e0"]) if isinstance(cfg["e0"], (list, tuple)) else cfg["e0"]
+        e1 = cfg.get("e1", ())
+        self.e1 = tuple(e1) if isinstance(e1, (list, tuple)) else e1
+        del self.log[:]
+        if self.build_result[0] != "ok":
+            return Obs(self.build_result, [], self.e0)
+        self.cur_func = cfg.get("which_func", 0) % len(self.funcs)
+        f = self.funcs[self.cur_func]
+        ind0 = self.ind0
+        out = vlib.guarded(lambda: f(ind0, *cfg["args"], **cfg["kwargs"]))
+        return Obs(out, list(self.log), self.e0)
 
 
 def sign_expected(w):
@@ -264,7 +293,27 @@ def case_term(cfg, out, log):
 TRUTHY = [True, 1, "yes", [0], 2.5]
 FALSY = [False, 0, None, "", [], 0.0]
 MAGS = [1.0, 1.0, 0.5, 2.0, 3.0, 0.125, 1e-3, 1e6, 7.25]
-ARGSETS = [((), {}), ((3,), {}), ((3, -4), {}), ((), {"k": 5}), ((7,), {"k": 5, "j": -1}), ((0, 0, 1), {"z": 0, "a": 2})]
+ARGSETS = [((), {}), ((3,), {}), ((3, -4), {}), ((), {"k": 5}), ((7,), {"k": 5, "j": -1}), ((0, 0, 1), {"z": 0, "a": 2}),
+           ((1, 2, 3, 4), {}), ((-1,), {"alpha": 2}), ((), {"delta": -3, "distance": 4}), ((5,), {"func": 1, "self": 2})]
+# pass-through keyword names that collide with the decorators' own parameter / attribute / local names.
+# (`individual` cannot be one: the wrapper's first parameter has that name, so Python itself rejects the call.)
+COLLIDING = ["alpha", "delta", "distance", "feasibility", "feasible", "func", "self", "args", "kwargs", "weights", "dists",
+             "dist", "w", "d", "f", "f_ind", "f_fbl", "fbty_fct", "fbl_fct", "dist_fct", "wrapper", "ind", "cls",
+             "_signs", "signs", "cache", "valid", "penalty", "fitness", "key", "default"]
+NEUTRAL = ["k", "j", "z", "a", "target", "scale", "x", "n", "verbose"]
+
+
+def rand_extra(rng):
+    """extra positional and keyword arguments: 0..4 positionals, 0..3 keywords (colliding and neutral names)"""
+    r = rng.random()
+    if r < 0.25:
+        return rng.choice(ARGSETS)
+    a = tuple(rng.randint(-9, 9) for _ in range(rng.choice([0, 0, 1, 1, 2, 3, 4])))
+    names = rng.sample(COLLIDING + NEUTRAL + COLLIDING, rng.choice([0, 1, 1, 2, 3]))
+    k = {}
+    for nm in names:
+        k[nm] = rng.randint(-9, 9) if nm != "alpha" else rng.choice([2, 3, 7, -1])
+    return a, k
 
 
 def dy(rng, lo=-40, hi=40, den=8):
@@ -283,8 +332,9 @@ def base_cfg(rng, kind, w, feasible, delta_shape, dist_shape, alpha=None, extra=
            "e0": [dy(rng) for _ in range(n)],
            "args": (), "kwargs": {}, "alias": rng.random() < 0.5, "via_toolbox": rng.random() < 0.15,
            "seq_as_tuple": rng.random() < 0.7, "explicit_none": rng.random() < 0.3,
-           "creator": rng.random() < 0.5, "call_twice": rng.random() < 0.2}
-    a, k = extra if extra is not None else rng.choice(ARGSETS)
+           "creator": rng.random() < 0.5, "call_twice": rng.random() < 0.2,
+           "two_funcs": rng.random() < 0.15, "which_func": rng.randint(0, 1)}
+    a, k = extra if extra is not None else rand_extra(rng)
     cfg["args"], cfg["kwargs"] = tuple(a), dict(k)
     if rng.random() < 0.3:   # integer-valued numbers (Python ints)
         num = lambda: rng.randint(-9, 9)      # noqa
@@ -305,6 +355,20 @@ def base_cfg(rng, kind, w, feasible, delta_shape, dist_shape, alpha=None, extra=
         cfg["e1"] = [num() for _ in range(n)]
         cfg["alpha"] = alpha if alpha is not None else rng.choice([0, 0.0, 0.25, 0.5, 1.0, 2, 3.5])
         cfg["dother"] = 64.0
+    return cfg
+
+
+def follow(rng, first, w, feasible, dist_shape=None, extra=None):
+    """another call on the decorated function `first` was made on: a different individual (weights w), its own
+    feasibility / distance / evaluator answers / extra arguments; the decorator's construction is shared"""
+    cfg = base_cfg(rng, first["kind"], w, feasible, "scalar",
+                   dist_shape or rng.choice(["scalar", "vector"]), extra=extra)
+    for k in SESSION_KEYS:
+        if k in first:
+            cfg[k] = first[k]
+    if first["dist"] is None:
+        cfg["dist"] = None
+    cfg["call_twice"] = False
     return cfg
 
 
@@ -331,9 +395,14 @@ def main(run):
     run.rule = ("exhaustive: 1..4 objectives x every weight-sign vector x {scalar, per-objective} constant x {absent, scalar, "
                 "per-objective} distance x {feasible, infeasible} x both decorators (3 alphas), numbers drawn from dyadic grids; "
                 "random: 1..4 objectives (some 0, 5, 6), weights of any sign/magnitude incl. 0.0 and -0.0, int and float numbers, "
-                "tuple/list sequences, truthy/falsy feasibility values, a second call of the same decorated function (20%),  extra positional and keyword arguments, both class-name "
-                "spellings, direct decoration and Toolbox.decorate, creator-made and plain individuals; every infeasible case is "
-                "paired with the same case under a distance at least as large (monotonicity); out-of-scope sizes (zip truncation, "
+                "tuple/list sequences, truthy/falsy feasibility values, 0..4 extra positional and 0..3 keyword arguments whose names "
+                "include every parameter / attribute / local name of the decorators (alpha, delta, distance, func, self, kwargs, ...), "
+                "both class-name spellings, direct decoration and Toolbox.decorate, creator-made and plain individuals; every infeasible case is "
+                "paired with the same case under a distance at least as large (monotonicity), run on the same decorated function; "
+                "call sequences on ONE decorated function: every ordered pair of sign vectors (1..3 objectives, 1..4 thorough) "
+                "with different fitness classes, every colliding keyword name feasible and infeasible, random sequences of 2..6 "
+                "calls mixing fitness classes / numbers of objectives / feasible and infeasible, one decorator instance decorating "
+                "two functions; each call is judged and tied on its own; out-of-scope sizes (zip truncation, "
                 "IndexError, TypeError) are tied by correspondence only. A case is distinct by its full configuration; "
                 "non-trivial = infeasible with a distance function, or feasible with extra arguments.")
     run.trusted += ["Coq 8.16.1 kernel and vm_compute",
@@ -412,10 +481,6 @@ def main(run):
     terms, cases = [], []
     stats = {"feasible": 0, "infeasible": 0, "out_of_scope": 0, "raised": 0, "mono_pairs": 0}
 
-    def execute(cfg):
-        world = World(constraint, cfg, lambda w, tag: mkind(w, tag, cfg.get("creator", False)))
-        return world, world.run()
-
     def describe(cfg, out, log):
         d = dict(cfg)
         d["feas_value"] = repr(d["feas_value"])
@@ -423,39 +488,61 @@ def main(run):
         d["calls"] = [list(map(repr, e)) for e in log]
         return d
 
+    def run_session(cfgs, collect=True):
+        """the calls cfgs[0], cfgs[1], ... one after the other on ONE decorated function (split where the decorator
+        construction differs); every call is judged on its own against the statement and tied on its own."""
+        outs = []
+        sess, first, history = None, None, []
+        for cfg in cfgs:
+            if sess is None or not compatible(first, cfg):
+                sess, first, history = Session(constraint, cfg, mkind), cfg, []
+            reps = 2 if cfg.get("call_twice") else 1
+            for nth in range(reps):
+                obs = sess.call(cfg)
+                out, log = obs.out, obs.log
+                case = describe(cfg, out, log)
+                case["position_in_call_sequence"] = len(history) + 1
+                if history:
+                    case["earlier_calls_on_same_decorated_function"] = history[-6:]
+                nontrivial = (not cfg["feasible"] and cfg["dist"] is not None) or \
+                             (cfg["feasible"] and (cfg["args"] or cfg["kwargs"])) or bool(history)
+                run.note_case({k: v for k, v in case.items() if k not in ("observed", "calls")}, nontrivial,
+                              sample=case if (run.evaluations % 211 == 3) else None)
+                for b in oracle(cfg, obs, out, log):
+                    run.oracle_violation(b if not history else "call %d on the same decorated function: %s" % (len(history) + 1, b),
+                                         case, observed=case["observed"])
+                if out[0] == "raise":
+                    stats["raised"] += 1
+                if collect:
+                    terms.append(case_term(cfg, out, log))
+                    cases.append(case)
+                history.append({"weights": list(cfg["w0"]), "feasible": cfg["feasible"], "dist": cfg["dist"],
+                                "args": list(cfg["args"]), "kwargs": dict(cfg["kwargs"]), "returned": repr(out[1])})
+                if nth == 0:
+                    outs.append(out)
+            if cfg["feasible"]:
+                stats["feasible"] += 1
+            elif in_scope(cfg):
+                stats["infeasible"] += 1
+            else:
+                stats["out_of_scope"] += 1
+        if len(cfgs) > 1:
+            stats["sequences"] = stats.get("sequences", 0) + 1
+        return outs
+
     def one(cfg, collect=True):
-        world, runs = execute(cfg)
-        nontrivial = (not cfg["feasible"] and cfg["dist"] is not None) or (cfg["feasible"] and (cfg["args"] or cfg["kwargs"]))
-        for nth, (out, log) in enumerate(runs):
-            case = describe(cfg, out, log)
-            case["call_number"] = nth + 1
-            run.note_case({k: v for k, v in case.items() if k not in ("observed", "calls")}, nontrivial,
-                          sample=case if (run.evaluations % 211 == 3) else None)
-            for b in oracle(cfg, world, out, log):
-                run.oracle_violation(b if nth == 0 else "second call of the same decorated function: " + b, case,
-                                     observed=case["observed"])
-            if out[0] == "raise":
-                stats["raised"] += 1
-            if collect:
-                terms.append(case_term(cfg, out, log))
-                cases.append(case)
-        if cfg["feasible"]:
-            stats["feasible"] += 1
-        elif in_scope(cfg):
-            stats["infeasible"] += 1
-        else:
-            stats["out_of_scope"] += 1
-        return runs[0][0]
+        return run_session([cfg], collect)[0]
 
     def with_partner(cfg, collect=True):
-        out = one(cfg, collect)
         if not cfg["feasible"] and in_scope(cfg):
             cfg2 = grown(rng, cfg)
-            out2 = one(cfg2, collect)
+            out, out2 = run_session([cfg, cfg2], collect)     # on the same decorated function where possible
             stats["mono_pairs"] += 1
             for b in oracle_monotone(cfg, out, cfg2, out2):
                 run.oracle_violation(b, {"smaller_distance": describe(cfg, out, []), "larger_distance": describe(cfg2, out2, [])},
                                      observed=[repr(out[1]), repr(out2[1])])
+        else:
+            one(cfg, collect)
 
     # aliases are the same classes (the statement says "either penalty decorator")
     for a, b in (("DeltaPenality", "DeltaPenalty"), ("ClosestValidPenality", "ClosestValidPenalty")):
@@ -481,6 +568,30 @@ def main(run):
             for kind in ("delta", "closest"):
                 for feasible in (False, True):
                     with_partner(base_cfg(rng, kind, [1.0, -1.0], feasible, "vector", "vector", extra=extra), collect)
+        # every colliding keyword name, alone and together with a positional, feasible and infeasible, both decorators;
+        # all calls of one (decorator, distance-shape) go to the same decorated function
+        for kind in ("delta", "closest"):
+            for xshape in ("none", "vector"):
+                first = base_cfg(rng, kind, [2.0, -1.0], True, "scalar", xshape, extra=((), {}))
+                seq = [first]
+                for nm in COLLIDING + NEUTRAL:
+                    for feasible in (True, False):
+                        extra = ((rng.randint(-9, 9),) if rng.random() < 0.5 else (), {nm: rng.choice([2, 3, 5, -4])})
+                        w = [s_ * rng.choice(MAGS) for s_ in rng.choice([(1, -1), (-1, 1), (1, 1), (-1, -1)])]
+                        seq.append(follow(rng, first, w, feasible, None if xshape == "none" else rng.choice(["scalar", "vector"]), extra))
+                run_session(seq, collect)
+        # every ordered pair of weight-sign vectors, one after the other on the same decorated function
+        # (different fitness classes, different magnitudes), both infeasible
+        for n in range(1, run.scale(3, 4) + 1):
+            vecs = list(itertools.product([1, -1], repeat=n))
+            for kind in ("delta", "closest"):
+                for s1 in vecs:
+                    for s2 in vecs:
+                        xshape = rng.choice(["scalar", "vector"])
+                        first = base_cfg(rng, kind, [x * rng.choice(MAGS) for x in s1], False, "scalar", xshape)
+                        first["call_twice"] = False
+                        second = follow(rng, first, [x * rng.choice(MAGS) for x in s2], False)
+                        run_session([first, second], collect)
 
     # ---- random -----------------------------------------------------------------------------------
     def rand_weight():
@@ -497,6 +608,20 @@ def main(run):
         w = [rand_weight() for _ in range(n)]
         cfg = base_cfg(rng, kind, w, rng.random() < 0.3, rng.choice(["scalar", "vector"]), rng.choice(["none", "scalar", "vector"]))
         with_partner(cfg, collect)
+
+    def random_sequence(collect=True):
+        """2..6 calls on one decorated function: individuals of different fitness classes (sign patterns, magnitudes,
+        same and different numbers of objectives), feasible / infeasible interleaved, their own extra arguments"""
+        kind = rng.choice(["delta", "closest"])
+        n = rng.choice([1, 2, 2, 3, 3, 4])
+        first = base_cfg(rng, kind, [rand_weight() for _ in range(n)], rng.random() < 0.4,
+                         rng.choice(["scalar", "scalar", "vector"]), rng.choice(["none", "scalar", "vector"]))
+        seq = [first]
+        for _ in range(rng.randint(1, 5)):
+            m = n if rng.random() < 0.75 else rng.choice([1, 2, 3, 4])
+            seq.append(follow(rng, first, [rand_weight() for _ in range(m)], rng.random() < 0.4))
+            seq[-1]["which_func"] = rng.randint(0, 1)
+        run_session(seq, collect)
 
     def out_of_scope_case(collect=True):
         """sizes that do not agree, empty weights, evaluator returning a bare number: correspondence only"""
@@ -521,6 +646,8 @@ def main(run):
         random_case()
     for _ in range(run.scale(200, 1000)):
         out_of_scope_case()
+    for _ in range(run.scale(250, 1500)):
+        random_sequence()
     if run.thorough:
         exhaustive()      # a second sweep with fresh numbers
 
@@ -554,6 +681,7 @@ def main(run):
         # something no longer checks and no failing input was seen: look harder with the oracle alone
         for _ in range(run.scale(4000, 40000)):
             random_case(collect=False)
+            random_sequence(collect=False)
             if run.oracle_viol:
                 return
         exhaustive(collect=False)
